@@ -3,16 +3,34 @@ From CF Require Import Common.Bytes C10.Model C10.Proofs C10.Gen_Drivers.
 Open Scope Z_scope.
 
 Lemma driver_flags :
-  drv_default_nr = true /\ drv_radio_initial_nr = true /\ drv_radio_nr_after false = true /\
-  reliable_ev (Open drv_usb_nr) /\ reliable_ev (SetNR (drv_radio_nr_after true)).
-Proof. cbv. auto. Qed.
+  drv_default_nr = true /\ drv_radio_initial_nr = true /\
+  (forall prev, drv_radio_nr_after prev false = true) /\ (forall prev, drv_radio_nr_after prev true = false) /\
+  reliable_ev (Open drv_usb_nr) /\ (forall prev, reliable_ev (SetNR (drv_radio_nr_after prev true))).
+Proof. repeat split; try (intros [|]); reflexivity. Qed.
+
+(* needs_resending of ONE RadioDriver object after a history of start-ups (connect, pause/restart, close/connect):
+   outs = handshake outcomes, oldest first *)
+Definition radio_flag_after (outs : list bool) : bool :=
+  fold_left drv_radio_nr_after outs drv_radio_initial_nr.
+
+(* the flag of a session follows THAT session's handshake, whatever happened in earlier sessions *)
+Lemma radio_flag_follows_last_handshake : forall outs o, radio_flag_after (outs ++ [o]) = negb o.
+Proof.
+  intros outs o. unfold radio_flag_after. rewrite fold_left_app. cbn [fold_left].
+  destruct driver_flags as (_ & _ & F & T & _). destruct o; [apply T | apply F].
+Qed.
 
 Lemma usb_and_safelink_no_retry : forall evs,
-  Forall (fun e => match e with Open n => n = drv_usb_nr | SetNR b => b = drv_radio_nr_after true | _ => True end) evs ->
+  Forall (fun e => match e with
+                   | Open n => n = drv_usb_nr
+                   | SetNR b => exists outs, b = radio_flag_after (outs ++ [true])
+                   | _ => True end) evs ->
   no_retry_state (fst (run Fixed init evs)).
 Proof.
   intros evs H. apply reliable_link_no_retry.
   - cbv. split; [reflexivity|]. split; [reflexivity|]. intros X. congruence.
-  - eapply Forall_impl; [|exact H]. destruct driver_flags as (_ & _ & _ & U & R).
-    intros [ | |n| | |b| | | ]; cbn; auto; intros ->; assumption.
+  - eapply Forall_impl; [|exact H]. destruct driver_flags as (_ & _ & _ & _ & U & _).
+    intros e He. destruct e; cbn [reliable_ev]; auto.
+    + subst. exact U.
+    + destruct He as (outs & He). subst. apply radio_flag_follows_last_handshake.
 Qed.
